@@ -14,6 +14,16 @@ Oracle ops (implementation only; one JSON object per line, numbers as repr float
   compile <10 θ> -> apply_body_theta_inertia on a fresh two-body MjSpec, spec.compile(), the compiled
                     body mass / ipos / inertia / iquat, pi_from_body and theta_inertia_from_body of the result
 
+  aspec <ifg0> <expl0> <hasgeo> <cfg> <10 θ>   (differential op, same line as the Lean driver's)
+                 -> spec <ifg> <explicitinertial> body <10> inertia <3> iquat <nan | 4>: the state the REAL
+                    apply_body_theta_inertia leaves in a spec built from <cfg> (see build_xml: compiler options
+                    inertiafromgeom/balanceinertia/bound*/inertiagrouprange/alignfree/fusestatic/discardvisual, target body
+                    with or without geoms / explicit inertial of every flavour / joint kinds / child / parent / frame, and
+                    the API sequence); <ifg0> <expl0> are asserted against the built spec
+  cspec <ifg0> <expl0> <hasgeo> <cfg> <10 θ>   (oracle op) -> JSON: pristine compile, post-apply spec state, final compile
+                    (mass, ipos, inertia, iquat, world-frame COM and inertia), pi_from_body / theta_inertia_from_body,
+                    every other body before/after
+
 The MjSpec/MjModel objects come from the pre-built `mujoco` wheel of /venv (NOT the tree's C engine): it is
 only the container in which the tree's Python code under test runs.
 """
@@ -162,6 +172,236 @@ def op_compile(x):
     return json.dumps(out)
 
 
+# ======================================================================================================
+# scenes for the "apply -> compile -> same mass properties" clause
+# ======================================================================================================
+CFG_DEFAULT = {"ifg": "2", "inr": "none", "ng": "1", "gm": "dens", "gg": "0", "igr": "def", "jt": "free", "ch": "1",
+               "chin": "0", "par": "0", "fr": "0", "bal": "0", "bm": "0", "bi": "0", "af": "0", "fs": "0", "dv": "0",
+               "vis": "0", "seq": "plain"}
+IFG_NAME = ["false", "true", "auto"]
+INERTIAL = {
+    "none": "",
+    "diag": '<inertial pos="0.01 0.02 0.03" mass="2" diaginertia="0.3 0.2 0.25"/>',
+    "diagq": '<inertial pos="0.01 0.02 0.03" quat="0.5 0.5 -0.5 0.5" mass="2" diaginertia="0.3 0.2 0.25"/>',
+    "full": '<inertial pos="0.01 0.02 0.03" mass="2" fullinertia="0.3 0.2 0.25 0.01 0.02 -0.01"/>',
+    "euler": '<inertial pos="0.01 0.02 0.03" euler="10 20 30" mass="2" diaginertia="0.3 0.2 0.25"/>',
+    "axisangle": '<inertial pos="0.01 0.02 0.03" axisangle="0 0.6 0.8 40" mass="2" diaginertia="0.3 0.2 0.25"/>',
+    "xyaxes": '<inertial pos="0.01 0.02 0.03" xyaxes="1 1 0 -1 1 0" mass="2" diaginertia="0.3 0.2 0.25"/>',
+    "zaxis": '<inertial pos="0.01 0.02 0.03" zaxis="0.2 0.3 1" mass="2" diaginertia="0.3 0.2 0.25"/>',
+}
+GEOMS = ['<geom name="g0" type="box" size="0.1 0.2 0.3" pos="0.05 0 -0.02" %s/>',
+         '<geom name="g1" type="capsule" size="0.04 0.15" pos="-0.1 0.05 0.1" euler="30 0 60" %s/>',
+         '<geom name="g2" type="ellipsoid" size="0.05 0.08 0.03" pos="0 -0.2 0.05" %s/>']
+JOINT = {"free": "<freejoint/>", "hinge": '<joint name="j" type="hinge" axis="0 0 1"/>',
+         "ball": '<joint name="j" type="ball"/>', "slide": '<joint name="j" type="slide" axis="1 0 0"/>', "none": ""}
+
+
+def parse_cfg(tok):
+    c = dict(CFG_DEFAULT)
+    if tok != "-":
+        for kv in tok.split(","):
+            k, v = kv.split("=")
+            if k not in c:
+                raise ValueError(tok)
+            c[k] = v
+    return c
+
+
+def build_xml(c):
+    comp = ['inertiafromgeom="%s"' % IFG_NAME[int(c["ifg"])]]
+    if c["bal"] == "1":
+        comp.append('balanceinertia="true"')
+    if c["bm"] != "0":
+        comp.append('boundmass="%s"' % c["bm"])
+    if c["bi"] != "0":
+        comp.append('boundinertia="%s"' % c["bi"])
+    if c["igr"] != "def":
+        comp.append('inertiagrouprange="%s"' % c["igr"].replace("-", " "))
+    for k, a in (("af", "alignfree"), ("fs", "fusestatic"), ("dv", "discardvisual")):
+        if c[k] == "1":
+            comp.append('%s="true"' % a)
+    gattr = 'group="%s"' % c["gg"]
+    if c["gm"] == "mass":
+        gattr += ' mass="1.5"'
+    elif c["gm"] == "zero":
+        gattr += ' density="0"'
+    geoms = "".join(g % gattr for g in GEOMS[:int(c["ng"])])
+    if c["vis"] == "1":
+        geoms += '<geom name="gv" type="sphere" size="0.02" pos="0.3 0 0" contype="0" conaffinity="0" group="2"/>'
+    other_inr = '<inertial pos="0.01 0 0" mass="0.7" diaginertia="0.002 0.003 0.004"/>' if c["chin"] == "1" else ""
+    child = ""
+    if c["ch"] in ("1", "2"):
+        child = '<body name="c" pos="0 0 0.5">%s%s<geom name="gc" size="0.05"/></body>' % (
+            '<joint name="jc" axis="0 1 0"/>' if c["ch"] == "1" else "", other_inr)
+    target = '<body name="b" pos="0.1 -0.2 0.3" euler="10 20 30">%s%s%s%s</body>' % (
+        JOINT[c["jt"]], INERTIAL[c["inr"]], geoms, child)
+    if c["fr"] == "1":
+        target = '<frame pos="0.2 0 0" euler="0 0 45">%s</frame>' % target
+    if c["par"] == "1":
+        target = '<body name="p" pos="0 0 1"><joint name="jp" type="hinge" axis="1 0 0"/>%s' \
+                 '<geom name="gp" type="capsule" size="0.03 0.2"/>%s</body>' % (
+                     '<inertial pos="0 0 0.01" mass="1.1" diaginertia="0.02 0.02 0.001"/>' if c["chin"] == "1" else "", target)
+    return '<mujoco><compiler %s/><worldbody>%s</worldbody></mujoco>' % (" ".join(comp), target)
+
+
+def theta_other(theta):
+    """a second, different parameter vector derived from theta (for the sequences that apply twice)"""
+    return np.array([0.5 * v for v in theta[::-1]]) + 0.1
+
+
+def apply_sequence(spec, c, theta):
+    """the API sequence under test; returns the spec whose compile is judged"""
+    seq = c["seq"]
+    if seq == "precompile":
+        spec.compile()
+    if seq == "copy":
+        spec = spec.copy()
+    if seq == "twice":
+        MM.apply_body_theta_inertia(spec, "b", theta_other(theta))
+    if seq == "otherfirst":
+        MM.apply_body_theta_inertia(spec, "c", theta_other(theta))
+    if seq == "param":
+        from mujoco.sysid._src import parameter as P
+        prm = P.Parameter("b_inertia", theta, theta - 1.0, theta + 1.0)
+        prm.inertia_type = P.InertiaType.Pseudo
+        MM.apply_body_inertia(spec, "b", prm)
+    else:
+        r = MM.apply_body_theta_inertia(spec, "b", theta)
+        if r is not spec:
+            raise AssertionError("apply_body_theta_inertia did not return the spec it was given")
+    if seq == "thenother":
+        MM.apply_body_theta_inertia(spec, "c", theta_other(theta))
+    if seq == "recompile":
+        spec.compile()
+    return spec
+
+
+def body_table(model):
+    out = {}
+    for i in range(1, model.nbody):
+        b = model.body(i)
+        out[b.name] = [float(b.mass[0])] + [float(v) for v in b.ipos] + [float(v) for v in b.inertia] + \
+                      [float(v) for v in b.iquat]
+    return out
+
+
+def world_inertial(model, name):
+    """world-frame COM and inertia tensor of a body at qpos0 (frame-invariant view of its mass properties)"""
+    data = mujoco.MjData(model)
+    mujoco.mj_kinematics(model, data)
+    mujoco.mj_comPos(model, data)
+    i = model.body(name).id
+    R = np.asarray(data.ximat[i]).reshape(3, 3)
+    Iw = R @ np.diag(model.body_inertia[i]) @ R.T
+    return [float(v) for v in data.xipos[i]], [float(v) for v in Iw.ravel()]
+
+
+def precheck(spec, c, ifg0, expl0):
+    got = (int(spec.compiler.inertiafromgeom), int(bool(spec.body("b").explicitinertial)))
+    if got != (ifg0, expl0):
+        raise AssertionError("scene/flags mismatch: built spec has (ifg, explicit) = %r, line says %r" % (got, (ifg0, expl0)))
+
+
+def spec_state(spec):
+    body = spec.body("b")
+    iq = np.asarray(body.iquat, dtype=np.float64).ravel()
+    return {"ifg": int(spec.compiler.inertiafromgeom), "explicit": int(bool(body.explicitinertial)),
+            "mass": float(body.mass), "ipos": [float(v) for v in body.ipos],
+            "full": [float(v) for v in np.asarray(body.fullinertia).ravel()],
+            "inertia": [float(v) for v in body.inertia], "iquat": [float(v) for v in iq]}
+
+
+def op_aspec(ifg0, expl0, hasgeo, cfgtok, x):
+    c = parse_cfg(cfgtok)
+    spec = mujoco.MjSpec.from_string(build_xml(c))
+    precheck(spec, c, ifg0, expl0)
+    spec = apply_sequence(spec, c, np.array(x))
+    st = spec_state(spec)
+    iq = st["iquat"]
+    return "spec %d %d body %s inertia %s iquat %s" % (
+        st["ifg"], st["explicit"], hexs([st["mass"]] + st["ipos"] + st["full"]), hexs(st["inertia"]),
+        "nan" if all(v != v for v in iq) else hexs(iq))
+
+
+def judged_outputs(spec, out):
+    model = spec.compile()
+    mb = model.body("b")
+    out["mass"] = float(mb.mass[0])
+    out["ipos"] = [float(v) for v in mb.ipos]
+    out["inertia"] = [float(v) for v in mb.inertia]
+    out["iquat"] = [float(v) for v in mb.iquat]
+    out["xipos"], out["Iw"] = world_inertial(model, "b")
+    out["after"] = body_table(model)
+    return model
+
+
+def op_cspec(ifg0, expl0, hasgeo, cfgtok, x):
+    c = parse_cfg(cfgtok)
+    theta = np.array(x)
+    pi = MM.pi_from_theta(theta)
+    out = {"pi": [float(v) for v in pi], "cond": float(np.linalg.cond(MM.pseudoinertia_from_pi(pi))),
+           "pi_other": [float(v) for v in MM.pi_from_theta(theta_other(theta))]}
+    xml = build_xml(c)
+    stage = "pristine"
+    try:
+        pristine = mujoco.MjSpec.from_string(xml)
+        precheck(pristine, c, ifg0, expl0)
+        try:
+            out["before"] = body_table(pristine.compile())
+        except Exception as e:
+            out["invalid"] = type(e).__name__ + ": " + str(e)[:200]
+            return json.dumps(out)
+        if c["ifg"] != "2":
+            # what every body compiles to when only the caller's inertiafromgeom is replaced by AUTO
+            try:
+                out["auto_ref"] = body_table(mujoco.MjSpec.from_string(build_xml(dict(c, ifg="2"))).compile())
+            except Exception:
+                out["auto_ref"] = None
+        stage = "apply"
+        spec = apply_sequence(mujoco.MjSpec.from_string(xml), c, theta)
+        out["post"] = spec_state(spec)
+        f = out["post"]["full"]
+        out["eigF"] = [float(v) for v in np.linalg.eigvalsh(np.array([[f[0], f[3], f[4]], [f[3], f[1], f[5]], [f[4], f[5], f[2]]]))] \
+            if all(v == v for v in f) else None
+        stage = "compile"
+        judged_outputs(spec, out)
+        stage = "pi_from_body"
+        out["pi_back"] = [float(v) for v in MM.pi_from_body(spec, "b")]
+        try:
+            out["theta_back"] = [float(v) for v in MM.theta_inertia_from_body(spec, "b")]
+        except np.linalg.LinAlgError as e:
+            out["theta_back"] = None
+            out["theta_back_exc"] = str(e)
+        if c["af"] == "1":
+            # frame-invariant reference: the same scene and sequence without free-joint alignment
+            stage = "twin"
+            c2 = dict(c, af="0")
+            spec2 = apply_sequence(mujoco.MjSpec.from_string(build_xml(c2)), c2, theta)
+            tw = {}
+            m2 = judged_outputs(spec2, tw)
+            tw["pi_back"] = [float(v) for v in MM.pi_from_body(spec2, "b")]
+            out["twin"] = {k: tw[k] for k in ("mass", "ipos", "inertia", "xipos", "Iw", "pi_back")}
+            out["aligned"] = bool(np.max(np.abs(np.asarray(out["ipos"]) - np.asarray(tw["ipos"]))) > 0 or
+                                  np.max(np.abs(np.asarray(out["after"]["b"][7:]) - np.asarray(tw["after"]["b"][7:]))) > 0)
+    except Exception as e:  # exceptions of apply / compile are the observable of this op
+        out["exc"] = type(e).__name__ + ": " + str(e)[:300].replace("\n", " ")
+        out["stage"] = stage
+    return json.dumps(out)
+
+
+def scene_op(f, w):
+    if len(w) != 15:
+        return "bad-op"
+    if w[1] not in ("0", "1", "2") or w[2] not in ("0", "1") or w[3] not in ("0", "1"):
+        return "bad-op"
+    try:
+        parse_cfg(w[4])
+        x = [unhex(t) for t in w[5:]]
+    except ValueError:
+        return "bad-op"
+    return f(int(w[1]), int(w[2]), int(w[3]), w[4], x)
+
+
 OPS = {"fwd": (op_fwd, 10), "pseudo": (op_pseudo, 13), "chol": (op_chol, 16), "apply": (op_apply, 10),
        "oracle": (op_oracle, 10), "compile": (op_compile, 10)}
 
@@ -171,6 +411,12 @@ def main():
     out = sys.stdout
     for line in sys.stdin:
         w = line.split()
+        if w and w[0] in ("aspec", "cspec"):
+            try:
+                out.write(scene_op(op_aspec if w[0] == "aspec" else op_cspec, w) + "\n")
+            except Exception as e:
+                out.write("EXC %s: %s\n" % (type(e).__name__, str(e)[:200].replace("\n", " ")))
+            continue
         if not w or w[0] not in OPS:
             out.write("bad-op\n")
             continue
